@@ -511,6 +511,8 @@ func (ex *Exec) applyFunc(st *State, fn *types.Func, args []*Val, e *ast.CallExp
 	} else if pureLib[key] && sig.Results().Len() == 1 {
 		results = []*Val{ex.pureApp(st, fn, args)}
 		ex.wf(st, results[0])
+	} else if pureLib[key] && sig.Results().Len() > 1 {
+		results = ex.pureAppN(st, fn, args)
 	} else {
 		for i := 0; i < sig.Results().Len(); i++ {
 			results = append(results, ex.freshVal(st, "ret."+fn.Name(), sig.Results().At(i).Type()))
@@ -548,7 +550,13 @@ var pureLib = map[string]bool{
 	"strings.TrimSuffix": true, "strings.Contains": true, "strings.ReplaceAll": true, "strings.ToLower": true,
 	"filepath.Base": true, "filepath.Ext": true, "filepath.Dir": true, "filepath.Join": true,
 	"net.JoinHostPort": true, "base64.Encoding.EncodeToString": true, "sha256.Sum256": true,
-	"x509.MarshalPKIXPublicKey": false,
+	"http.Request.PathValue": true, "http.Request.Context": true, "url.Values.Get": true, "http.Header.Get": true,
+	"idna.ToASCII": true, "net.SplitHostPort": true, "net.Listener.Addr": true, "net.Addr.String": true,
+	"http.Request.UserAgent": true, "netip.ParseAddrPort": true, "netip.AddrPort.Port": true, "netip.AddrPort.Addr": true,
+	"netip.Addr.IsUnspecified": true, "netip.AddrPort.String": true,
+	"x509.MarshalPKIXPublicKey": true, "base64.Encoding.DecodeString": true, "x509.ParseCertificate": true,
+	"fs.FileMode.IsRegular": true, "fs.FileInfo.Mode": true, "fs.FileInfo.IsDir": true, "fs.FileInfo.ModTime": true,
+	"time.Time.IsZero": true,
 }
 
 var libWriters = map[string]bool{
@@ -656,6 +664,9 @@ func (ex *Exec) applyContract(st *State, fn *types.Func, fs *FuncSpec, u *Unit, 
 		if mentionsIdent(c.Expr, ghostNames) {
 			continue // about the callee's own ghost state
 		}
+		if c.Kind == "assumes" {
+			continue
+		}
 		g := ex.evalSpecBool(cs, c.Expr, u, where(c))
 		// facts created during evaluation
 		ex.adoptFacts(st, cs)
@@ -677,17 +688,26 @@ func (ex *Exec) applyContract(st *State, fn *types.Func, fs *FuncSpec, u *Unit, 
 	post.old = cs.old
 	// results
 	var results []*Val
+	var pureRes []*Val
+	if fs.Pure && sig.Results().Len() >= 1 {
+		pureRes = ex.pureAppN(st, fn, args)
+		if sig.Results().Len() == 1 {
+			pureRes = []*Val{ex.pureApp(st, fn, args)}
+		}
+	}
 	for i := 0; i < sig.Results().Len(); i++ {
 		name := fmt.Sprintf("ret%d.%s", i, fn.Name())
-		r := ex.freshVal(st, name, sig.Results().At(i).Type())
+		var r *Val
+		if pureRes != nil {
+			r = pureRes[i]
+			ex.wf(st, r)
+		} else {
+			r = ex.freshVal(st, name, sig.Results().At(i).Type())
+		}
 		results = append(results, r)
 		if i < len(fs.Results) {
 			post.bound[fs.Results[i]] = r
 		}
-	}
-	if fs.Pure && len(fs.Ensures) == 0 && len(results) == 1 {
-		results[0] = ex.pureApp(st, fn, args)
-		return results
 	}
 	post.pc = append([]*Term(nil), st.pc...)
 	for _, c := range fs.Ensures {
